@@ -61,3 +61,69 @@ PROPERTIES["C14"] = {
                      "nano::dataset_t::targets"]},
     ],
 }
+
+PROPERTIES["C20"] = {
+    "level": "other",
+    "level_text": "bounded symbolic verification: for every list of n symbolic reals (ties included), every percentage, every threshold/ratio/percentile specification and every real query v, percentile/median/histogram results equal the sorted-array reference; solver verdict per obligation",
+    "level_note": SRE_NOTE,
+    "technique": SRE_TECH,
+    "explanation": "C20: nano::percentile / percentile_sorted / median / median_sorted and histogram_t (thresholds, ratios, percentiles; counts, means, medians, bin()) on symbolic values; float->int conversions are enumerated by the solver.",
+    "assumptions": SRE_ASSUME + ["values boxed to [-4,4], thresholds to [-5,5], query to [-6,6], percentages to [0,100]"],
+    "bounds": {"values": "n <= 4 (quick), n <= 5 (thorough)", "thresholds": "<= 2 (quick), <= 3 (thorough)"},
+    "outside": ["histogram_t::make_from_exponents (log/pow thresholds)", "lists longer than 5"],
+    "units": [
+        {"engine": "sre", "harness": "C20_stats", "sources": ["C20_stats.cpp"],
+         "quick": ["mode=pct;n=1;var=0", "mode=pct;n=2;var=0", "mode=pct;n=3;var=0", "mode=pct;n=4;var=0", "mode=pct;n=4;var=1", "mode=pct;n=3;var=2",
+                   "mode=pct;n=4;var=2", "mode=pct;n=3;var=0;edge=1", "mode=pct;n=3;var=0;edge=2",
+                   "mode=hist;n=3;t=2;how=0", "mode=hist;n=3;t=1;how=1", "mode=hist;n=3;t=1;how=2", "mode=hist;n=1;t=2;how=0"],
+         "thorough": ["mode=pct;n=%d;var=%d" % (n, v) for n in (1, 2, 3, 4, 5) for v in (0, 1, 2)] +
+                     ["mode=pct;n=4;var=0;edge=1", "mode=pct;n=4;var=1;edge=2",
+                      "mode=hist;n=3;t=2;how=0", "mode=hist;n=4;t=2;how=0", "mode=hist;n=3;t=3;how=0", "mode=hist;n=3;t=2;how=1",
+                      "mode=hist;n=4;t=1;how=1", "mode=hist;n=3;t=2;how=2", "mode=hist;n=4;t=1;how=2", "mode=hist;n=1;t=2;how=0", "mode=hist;n=2;t=3;how=0"],
+         "encoded": ["nano::percentile", "nano::percentile_sorted", "nano::median", "nano::median_sorted", "nano::detail::percentile",
+                     "nano::histogram_t::histogram_t", "nano::histogram_t::make_from_thresholds", "nano::histogram_t::make_from_ratios",
+                     "nano::histogram_t::make_from_percentiles", "nano::histogram_t::update", "nano::histogram_t::update_bin",
+                     "nano::histogram_t::bin", "std::sort / std::nth_element / std::upper_bound instantiations"]},
+    ],
+}
+
+_C07_ENC = ["nano::lsearchk_t::get", "nano::lsearchk_backtrack_t::do_get", "nano::lsearchk_lemarechal_t::do_get", "nano::lsearchk_fletcher_t::do_get (+zoom)",
+            "nano::lsearchk_morethuente_t::do_get (+dcstep)", "nano::lsearchk_cgdescent_t::do_get (+bracket, update, updateU)",
+            "nano::solver_state_t::{update, valid, has_descent, dg, has_armijo, has_wolfe, has_strong_wolfe, has_approx_*}",
+            "nano::lsearch_step_t::{cubic, quadratic, secant, bisection, interpolate} (unit C07_lsearch_real)", "nano::lsearchk_t::update (unit C07_lsearch_real)"]
+PROPERTIES["C07"] = {
+    "level": "other",
+    "level_text": "bounded symbolic verification with an oracle function: every function evaluation returns fresh symbolic (value, gradient) constrained only to be a function (equal points give equal answers), so 'for any function, point, direction, step and tolerances' is a literal quantifier; every path of the real line-search code within max_iterations is explored and success => advertised conditions is decided by the solver on each",
+    "level_note": SRE_NOTE + "; unit C07_lsearch replaces lsearchk_t::update by its non-logging equivalent and lsearch_step_t::interpolate by an arbitrary real (callers clamp it); unit C07_lsearch_real keeps both real",
+    "technique": SRE_TECH,
+    "explanation": "C07: real lsearchk_t::get + do_get of the five line-searches on an oracle function (1-2 dims), symbolic x, d, t0 in [1e-3,1e3] or non-finite, symbolic 0<c1<c2<1, optional +inf evaluations.",
+    "assumptions": SRE_ASSUME + ["oracle function: fresh symbolic value/gradient per evaluation + functional consistency; evaluations selected by inf=/inf2= return +inf"],
+    "bounds": {"dims": "1..2", "max_iterations": "1..4 (quick), 1..6 (thorough)", "t0": "[1e-3,1e3], +inf, NaN, -1"},
+    "outside": ["'all five line-searches succeed on convex quadratics' (needs unbounded iterations)",
+                "advertised-condition clause for More-Thuente and CG_DESCENT: both return success from 'no further progress / bracketing failed' exits by design; see known findings (unit C07_quad)"],
+    "units": [
+        {"engine": "sre", "harness": "C07_lsearch", "sources": ["C07_lsearch.cpp"],
+         "quick": ["ls=backtrack;d=1;it=3", "ls=backtrack;d=2;it=4", "ls=backtrack;d=1;it=3;inf=1", "ls=backtrack;d=1;it=3;inf=1;inf2=2", "ls=backtrack;d=1;it=2;t0=inf",
+                   "ls=backtrack;d=1;it=2;t0=nan", "ls=backtrack;d=1;it=2;t0=neg",
+                   "ls=lemarechal;d=1;it=3", "ls=lemarechal;d=2;it=4", "ls=lemarechal;d=1;it=3;inf=1;inf2=2", "ls=lemarechal;d=1;it=2;t0=inf",
+                   "ls=fletcher;d=1;it=3", "ls=fletcher;d=2;it=2", "ls=fletcher;d=1;it=2;inf=1", "ls=fletcher;d=1;it=2;t0=nan",
+                   "ls=morethuente;d=1;it=1", "ls=cgdescent;d=1;it=1", "ls=morethuente;d=1;it=1;inf=1", "ls=cgdescent;d=1;it=1;inf=1"],
+         "thorough": ["ls=%s;d=%d;it=%d" % (l, d, it) for l in ("backtrack", "lemarechal") for d in (1, 2) for it in (1, 2, 4, 6)] +
+                     ["ls=fletcher;d=1;it=1", "ls=fletcher;d=1;it=2", "ls=fletcher;d=1;it=3", "ls=fletcher;d=2;it=3", "ls=fletcher;d=1;it=4"] +
+                     ["ls=%s;d=1;it=3;inf=1;inf2=%d" % (l, k) for l in ("backtrack", "lemarechal", "fletcher") for k in (-1, 2, 3)] +
+                     ["ls=%s;d=1;it=2;t0=%s" % (l, t) for l in ("backtrack", "lemarechal", "fletcher", "morethuente", "cgdescent") for t in ("inf", "nan", "neg")] +
+                     ["ls=morethuente;d=1;it=2", "ls=cgdescent;d=1;it=2", "ls=morethuente;d=2;it=1", "ls=cgdescent;d=2;it=1"],
+         "budget": {"quick": {"deadline_s": 100, "max_paths": 20000}, "thorough": {"deadline_s": 900, "max_paths": 400000}},
+         "encoded": _C07_ENC},
+        {"engine": "sre", "harness": "C07_lsearch_real", "sources": ["C07_lsearch.cpp"], "flags": ["-DREAL_UPDATE", "-DREAL_INTERPOLATE"],
+         "quick": ["ls=backtrack;d=1;it=2;interp=0", "ls=backtrack;d=1;it=2;interp=1", "ls=lemarechal;d=1;it=2;interp=1", "ls=lemarechal;d=1;it=2;interp=0"],
+         "thorough": ["ls=%s;d=1;it=2;interp=%d" % (l, i) for l in ("backtrack", "lemarechal") for i in (0, 1, 2)] + ["ls=fletcher;d=1;it=1;interp=1", "ls=backtrack;d=2;it=2;interp=1"],
+         "budget": {"quick": {"deadline_s": 100, "max_paths": 20000}, "thorough": {"deadline_s": 900, "max_paths": 400000}},
+         "encoded": _C07_ENC},
+        {"engine": "sre", "harness": "C07_quad", "sources": ["C07_lsearch.cpp"],
+         "quick": ["ls=cgdescent;d=1;it=4;fn=quad;scale=10;tol=def;strict=1", "ls=morethuente;d=1;it=3;fn=quad"],
+         "thorough": ["ls=cgdescent;d=1;it=4;fn=quad;scale=10;tol=def;strict=1", "ls=morethuente;d=1;it=3;fn=quad"],
+         "budget": {"quick": {"deadline_s": 40, "max_paths": 3000}, "thorough": {"deadline_s": 40, "max_paths": 3000}},
+         "encoded": _C07_ENC},
+    ],
+}
